@@ -102,7 +102,7 @@ def _in_domain(acts):
             connected, dead = True, False
         if a == "disc" or (a.startswith("with") and a != "withref"):
             connected = False
-    return True
+    return True     # (o:… actions, another client's, are never out of the domain)
 
 
 def _shrunk(a):
@@ -137,9 +137,30 @@ FIXED = [{"api": t, "acts": acts} for t in ("type1", "type2") for acts in (
     ["crefs", "cok", "op", "disc", "crefs", "crefs", "cok", "disc", "crefs", "withop"])]
 
 
+def with_another_client(rng, a):
+    """the same history while ANOTHER client object connects to the same device, operates and disconnects in between: the first
+    client's flag and sockets must be what they are without it (theorem foreign_is_invisible)"""
+    acts, oc = [], False
+    for x in a["acts"]:
+        while rng.random() < 0.45:
+            o = rng.choice(["o:cok", "o:cok", "o:op", "o:disc"] if not oc else ["o:op", "o:disc", "o:op", "o:cok"])
+            oc = True if o == "o:cok" else False if o == "o:disc" else oc
+            acts.append(o)
+        acts.append(x)
+    acts.append("o:cok" if not oc else "o:disc")
+    return dict(a, acts=acts)
+
+
+FIXED += [{"api": t, "acts": acts} for t in ("type1", "type2") for acts in (
+    ["cok", "o:cok", "op", "o:op", "op", "o:disc", "op", "disc", "o:cok", "cok", "o:disc", "op", "disc"],
+    ["o:cok", "cok", "op", "disc", "o:op", "with", "withop", "o:disc", "cref", "o:cok", "withx", "o:disc"])]
+
+
 def streams(ctx):
     rng = ctx.rng
     ctx.run_cases(LIFE, "fixed-scenarios", FIXED, exhaustive=True)
+    ctx.run_cases(LIFE, "histories-with-another-client-object-on-the-same-device", [with_another_client(rng, gen(rng)) for _ in range(ctx.n(50, 1000))],
+                  exhaustive=False, sample_every=25)
     ctx.run_cases(LIFE, "random-action-sequences", [gen(rng) for _ in range(ctx.n(140, 3000))], exhaustive=False, sample_every=60)
     ctx.run_cases(ANY, "unrestricted-sequences", [gen_any(rng) for _ in range(ctx.n(60, 1200))], exhaustive=False, sample_every=30)
 
